@@ -770,3 +770,113 @@ func TestC26(t *testing.T) {
 		Run:       runC26(t),
 	})
 }
+
+// ---- known-finding candidate: real double-signing cannot be proven ----------------------
+//
+// The statement says that two valid signatures over different data for one sequence freeze the
+// client. Signatures that verifyMembership accepts sign SignBytes.Path = the raw ICS-24 key
+// (key path element 1). Misbehaviour evidence, however, must carry a Path that proto-decodes as a
+// MerklePath and is verified over THOSE bytes, so two proofs that the client would each accept
+// for the same sequence are not accepted as misbehaviour, in either encoding of the path.
+
+const c26EvidenceSig = "two-acceptable-proofs-for-one-sequence-rejected-as-misbehaviour"
+
+type c26EvCase struct {
+	Init       c26Init
+	Key1, Key2 int // indexes into c26Keys (made different)
+	Data1      int // 1..4
+	TsD2       int // second signature's timestamp offset (0..2)
+	Encoded    bool
+}
+
+func genC26Ev(t *rapid.T) c26EvCase {
+	return c26EvCase{
+		Init: c26Init{NKeys: rapid.IntRange(1, 3).Draw(t, "nkeys"), Thresh: rapid.IntRange(1, 3).Draw(t, "thresh"), Div: rapid.IntRange(0, 2).Draw(t, "div"),
+			Ts: rapid.SampledFrom([]uint64{1, 10, 1_700_000_000_000_000_000}).Draw(t, "ts"), Seq: rapid.SampledFrom([]uint64{1, 5, 1 << 32}).Draw(t, "seq")},
+		Key1: rapid.IntRange(0, len(c26Keys)-1).Draw(t, "k1"), Key2: rapid.IntRange(0, len(c26Keys)-1).Draw(t, "k2"),
+		Data1: rapid.IntRange(1, 4).Draw(t, "d1"), TsD2: rapid.IntRange(0, 2).Draw(t, "tsd2"), Encoded: rapid.Bool().Draw(t, "encoded"),
+	}
+}
+
+func runC26Ev(outer *testing.T) func(rapid.TB, c26EvCase, *vx.Case) {
+	return func(t rapid.TB, c c26EvCase, rec *vx.Case) {
+		w := sim.NewWorld(outer, 1, nil)
+		cw := &c26World{w: w, cdc: w.App(0).AppCodec(), sets: c26KeySets(c.Init), signer: w.Addr(0, 0).String()}
+		for _, ks := range cw.sets {
+			a, err := codectypes.NewAnyWithValue(ks.pub)
+			if err != nil {
+				vx.Harnessf("any: %v", err)
+			}
+			cw.anys = append(cw.anys, a)
+		}
+		div := c26Divs[c.Init.Div%3]
+		cons := &solomachine.ConsensusState{PublicKey: cw.anys[0], Diversifier: div, Timestamp: c.Init.Ts}
+		create, err := clienttypes.NewMsgCreateClient(solomachine.NewClientState(c.Init.Seq, cons), cons, cw.signer)
+		if err != nil {
+			vx.Harnessf("NewMsgCreateClient: %v", err)
+		}
+		res := w.Deliver(0, 0, create)
+		if !res.OK {
+			vx.Harnessf("create client failed: %v", res.Err)
+		}
+		if cw.clientID, err = ibctesting.ParseClientIDFromEvents(res.Events); err != nil {
+			vx.Harnessf("client id: %v", err)
+		}
+		k1, k2 := c.Key1%len(c26Keys), c.Key2%len(c26Keys)
+		if k1 == k2 {
+			k2 = (k2 + 1) % len(c26Keys)
+		}
+		datas := [][]byte{nil, []byte("v"), []byte("value-1"), []byte("value-2"), bytes.Repeat([]byte{0x11}, 32)}
+		type ev struct {
+			key, data []byte
+			ts        uint64
+			sig       []byte
+		}
+		evs := []ev{{key: []byte(c26Keys[k1]), data: datas[c.Data1], ts: c.Init.Ts}, {key: []byte(c26Keys[k2]), data: append([]byte("other-"), datas[c.Data1]...), ts: c.Init.Ts + uint64(c.TsD2)}}
+		k := w.App(0).IBCKeeper.ClientKeeper
+		for i := range evs {
+			s := c26Signed{Seq: c.Init.Seq, Ts: evs[i].ts, Div: div, Path: evs[i].key, Data: evs[i].data, KS: 0}
+			evs[i].sig = c26Sign(cw.cdc, cw.sets, &s, 7, false)
+			// each one, on its own, is a proof the client accepts for this sequence (scratch context, discarded)
+			ctx, _ := w.Ctx(0).CacheContext()
+			if err := k.VerifyMembership(ctx, cw.clientID, clienttypes.NewHeight(0, 1), 0, 0, cw.proof(evs[i].sig, evs[i].ts),
+				commitmenttypesv2.MerklePath{KeyPath: [][]byte{[]byte("ibc"), evs[i].key}}, evs[i].data); err != nil {
+				vx.Harnessf("evidence signature %d is not an acceptable proof: %v", i, err)
+			}
+		}
+		mb := &solomachine.Misbehaviour{Sequence: c.Init.Seq}
+		sad := make([]*solomachine.SignatureAndData, 2)
+		for i := range evs {
+			p := evs[i].key
+			if c.Encoded {
+				mp := commitmenttypesv2.MerklePath{KeyPath: [][]byte{[]byte("ibc"), evs[i].key}}
+				if p, err = cw.cdc.Marshal(&mp); err != nil {
+					vx.Harnessf("marshal path: %v", err)
+				}
+			}
+			sad[i] = &solomachine.SignatureAndData{Signature: evs[i].sig, Path: p, Data: evs[i].data, Timestamp: evs[i].ts}
+		}
+		mb.SignatureOne, mb.SignatureTwo = sad[0], sad[1]
+		r := w.Deliver(0, 0, cw.updateMsg(mb))
+		_, _, frozen := cw.state()
+		rec.Class("evidence-path-encoded-as-merkle-path=%v", c.Encoded)
+		rec.NonTrivial()
+		if frozen {
+			rec.Class("frozen")
+			return
+		}
+		vx.Violatef(t, rec, "C26", c26EvidenceSig, "sequence %d: signatures over (%q,%q,ts=%d) and (%q,%q,ts=%d) are each accepted by VerifyMembership, but submitting the pair as Misbehaviour (path as %s) does not freeze the client (tx ok=%v err=%v)",
+			c.Init.Seq, evs[0].key, evs[0].data, evs[0].ts, evs[1].key, evs[1].data, evs[1].ts, map[bool]string{false: "the signed raw key", true: "proto MerklePath"}[c.Encoded], r.OK, r.Err)
+	}
+}
+
+// TestC26Evidence re-demonstrates the known-finding candidate above on every run.
+func TestC26Evidence(t *testing.T) {
+	vx.Check(t, vx.Prop[c26EvCase]{
+		ID:        "C26",
+		Rule:      "cases = solo machine client + two signatures over different (ICS-24 key, data) for the CURRENT sequence, each shown to be an acceptable membership proof, submitted together as Misbehaviour with the path as signed or proto-encoded; every case is non-trivial",
+		MinNTFrac: 1,
+		Gen:       genC26Ev,
+		Run:       runC26Ev(t),
+	})
+}
